@@ -98,9 +98,9 @@ func derSigMutant(rng *gen.Rng, r, s *big.Int) ([]byte, string) {
 		}
 		return oracle.DERTLV(0x30, append(append([]byte{}, R...), oracle.DERTLV(0x02, x)...)), "negative-s"
 	case 13:
-		return oracle.DERTLV(0x30, append(append([]byte{}, body...), byte(rng.U64()))), "trailing-inside-seq"
+		return oracle.DERTLV(0x30, append(append([]byte{}, body...), trailingBytes(rng)...)), "trailing-inside-seq"
 	case 14:
-		return append(append([]byte{}, canon...), byte(rng.U64())), "trailing-outside-seq"
+		return append(append([]byte{}, canon...), trailingBytes(rng)...), "trailing-outside-seq"
 	case 15:
 		c := append([]byte{}, canon...)
 		c[0] = gen.Pick(rng, byte(0x31), 0x10, 0x70, 0x20, 0xb0, 0x3f)
@@ -171,4 +171,28 @@ func derSigMutant(rng *gen.Rng, r, s *big.Int) ([]byte, string) {
 		// s and r swapped is just another valid signature encoding of (s,r)
 		return oracle.DERTLV(0x30, append(append([]byte{}, S...), R...)), "swapped"
 	}
+}
+
+// trailingBytes: surplus data appended to an otherwise valid encoding.  Mostly one to three
+// bytes; sometimes exactly as many as make a length computed in 8 or 16 bits come out the
+// same again (256, 512, 65536, ...), or one off.
+func trailingBytes(r *gen.Rng) []byte {
+	n := 1
+	switch r.Intn(8) {
+	case 0:
+		n = 2 + r.Intn(6)
+	case 1:
+		n = 256 * (1 + r.Intn(4))
+	case 2:
+		n = 256*(1+r.Intn(3)) + []int{-1, 1}[r.Intn(2)]
+	case 3:
+		n = []int{65536, 65535, 65537, 131072}[r.Intn(4)]
+	}
+	b := r.Bytes(n)
+	if r.Bool() {
+		for i := range b {
+			b[i] = 0
+		}
+	}
+	return b
 }
